@@ -42,6 +42,16 @@ theorem rm_liftX_ok {α} (x : X α) (s : RSt) (a : α) (s1 : RSt) :
     ((liftX x).run s = .ok (a, s1)) ↔ x = .ok a ∧ s1 = s := by
   cases x <;> simp [liftX, StateT.run, eq_comm]
 
+theorem rm_visitM_ok (e : SExp) (s : RSt) (a : SExp) (s1 : RSt) :
+    ((visitM e).run s = .ok (a, s1)) ↔ visitE s e = .ok a ∧ s1 = s := by
+  unfold visitM
+  cases h : visitE s e <;> simp [StateT.run, h, eq_comm]
+
+theorem rm_visitMs_ok (es : List SExp) (s : RSt) (a : List SExp) (s1 : RSt) :
+    ((visitMs es).run s = .ok (a, s1)) ↔ visitEs s es = .ok a ∧ s1 = s := by
+  unfold visitMs
+  cases h : visitEs s es <;> simp [StateT.run, h, eq_comm]
+
 theorem rm_ite_ok {α} (c : Prop) [Decidable c] (x y : RM α) (s : RSt) (r : α × RSt) :
     (if c then x else y).run s = .ok r ↔ (c ∧ x.run s = .ok r) ∨ (¬ c ∧ y.run s = .ok r) := by
   by_cases h : c <;> simp [h]
